@@ -153,8 +153,12 @@ impl LocalHeader {
     }
 
     /// Get the BLTE data size (total size minus header).
+    ///
+    /// A header read from disk may carry a size below the header size; that
+    /// yields 0 instead of an arithmetic underflow.
     pub const fn blte_size(&self) -> u32 {
-        self.size_with_header - LOCAL_HEADER_SIZE as u32
+        self.size_with_header
+            .saturating_sub(LOCAL_HEADER_SIZE as u32)
     }
 }
 
